@@ -166,6 +166,30 @@ pub fn c04_configs(tier: Tier) -> Vec<InCfg> {
                     bp,
                 });
             }
+            if bp == 0 && !cork && !hauto && pauto {
+                // the application's publish service is not ready for a while (its own back-pressure): the dispatcher
+                // stops reading, responses of handlers that complete meanwhile still leave in order, and what arrived
+                // during the pause is handled afterwards
+                let mut eph = ep.clone();
+                eph.tag = "EP";
+                eph.ready_gate = true;
+                eph.holds = 1;
+                v.push(InCfg {
+                    ep: eph,
+                    connect_props: vec![],
+                    alphabet: vec![T::Pub { qos: 0, id: 0, len: 1, topic: 0, alias: 0 }, T::Pub { qos: 1, id: 0, len: 1, topic: 0, alias: 0 }, T::Ping, T::Sub(0)],
+                    prologue: vec![],
+                    max_len: if tier == Tier::Quick { 3 } else { 4 },
+                    outcomes: vec![GateOutcome::Ok],
+                    poutcomes: vec![GateOutcome::Ok],
+                    cork,
+                    judge: J_C04,
+                    app_sends: vec![],
+                    skip_connect: false,
+                    known: vec![],
+                    bp,
+                });
+            }
             if bp == 0 && !cork && !hauto && ver == Ver::V5 {
                 // a response the encoder must refuse: the peer's Maximum Packet Size is 40 bytes and the SUBACK of a
                 // 40-filter SUBSCRIBE does not fit. The connection must end; it must not go on with that response
